@@ -27,6 +27,8 @@ def main(tier):
             jobs.append(('memory', 'VerifTwin', dict(c06.CARTS[c], what=w, cls=0, addr=0)))
     if not q:
         jobs.append(('memory', 'VerifTwin', dict(c06.CARTS['mbc3'], what=1, cls=0, addr=0)))
+    fresh_types = [(0, 0), (3, 3), (6, 0), (0x0f, 0), (0x10, 3), (0x13, 3), (0x1b, 3)]
+    jobs += [('memory', 'VerifTwinFresh', {'type': t, 'rom': 1 if t else 0, 'ram': r}) for t, r in fresh_types]
     ck.stubs_used.append('PPU.renderPixel -> no-op in the system-level twin (its own twin is the frame-level run)')
     ck.run(jobs, timeout_ms=600000, max_unwind=64, setup=common_jobs.stub_render)
     ck.use_build(['cpu'], extra_overlay=FLAT)
